@@ -88,6 +88,11 @@ func (e *ContainerEdits) Apply(spec *oci.Spec) error {
 	}
 
 	for _, d := range e.DeviceNodes {
+		if d != nil {
+			// fill in missing information in a copy, not in the (cached) Spec
+			filled := *d
+			d = &filled
+		}
 		dn := DeviceNode{d}
 
 		err := dn.fillMissingInfo()
